@@ -63,7 +63,7 @@ def run(ctx):
             ctx.count("mode=" + m, c)
         if r["failure"]:
             key, what, hist, e = r["failure"]
-            ctx.fail("C15:%s" % key, what, {"roundtrip_job_args": [r["seed"]], "history_prefix": hist, "suffix_edit": e,
+            ctx.fail("C15:%s" % key, what, {"roundtrip_job_args": [r["seed"], r["n_points"], r["asked_length"], False], "history_prefix": hist, "suffix_edit": e,
                                           "how": "pv.edits.roundtrip_job((seed, n_points, length, False))"})
     ctx.count("roundtrips_with_index_holes", n_holes)
     ctx.count("roundtrips_outlier_only_tree", n_oo)
@@ -144,3 +144,26 @@ def run(ctx):
         "a trace holds TWO entries with iter = 0 (post-burn-in, and after the first sweep): consistent with the property's wording, noted in C15_trace_shape",
         "crashes of a run are recorded in the histogram but judged by C19",
     ]
+
+
+def replay(ctx, doc):
+    rp = doc.get("replay", {})
+    if "roundtrip_job_args" in rp:
+        r = edits.roundtrip_job(tuple(rp["roundtrip_job_args"]))
+        ctx.case(key="replay", n=r["roundtrips"], sample={"replay": rp["roundtrip_job_args"], "outcome": r["failure"]})
+        if r["failure"]:
+            key, what, hist, e = r["failure"]
+            ctx.fail("C15:%s" % key, what, rp)
+        ctx.log("replayed round-trip history: %s" % (r["failure"],))
+    elif "trace_job_args" in rp:
+        a = rp["trace_job_args"]
+        a[9] = float(a[9])
+        r = edits.trace_job(tuple(a))
+        ctx.case(key="replay", n=1, sample={"replay": a, "iters": r["iters"], "outcome": r["failure"]})
+        if r["failure"]:
+            key, what = r["failure"]
+            ctx.fail("C15:trace:%s:thin=%d,conc=%s" % (key, a[3], a[5]), what, rp)
+        ctx.log("replayed chain run: %s" % (r["failure"],))
+    else:
+        ctx.log("nothing to replay in this file (a tie/proof replay names the obligation that broke)")
+        print(doc)
